@@ -62,6 +62,9 @@ func mine(i int) bool { return i%nshards() == shard() }
 // pass of the 32-bit build.
 func shardLabel() string {
 	if os.Getenv("VERIF_ARCH32") != "" {
+		if nshards() > 1 {
+			return fmt.Sprintf("32_%d", shard())
+		}
 		return "32"
 	}
 	return fmt.Sprint(shard())
